@@ -14,8 +14,11 @@ Import ListNotations.
 Open Scope N_scope.
 
 (* separation (and, with it, order and multiplicity): str.split() of the full text is exactly the
-   list of segments — leaf texts not separated by a tab / line-break / paragraph / cell boundary
-   are concatenated, everything separated by such a boundary is separated by whitespace *)
+   list of segments — leaf texts not separated by a boundary are concatenated, everything separated
+   by a boundary is separated by whitespace.  Boundaries (Doc.inl_syms / blk_syms): w:tab; EVERY
+   w:br (no type, w:type="page", "column", "textWrapping") and w:cr; paragraph ends; table cells;
+   list items; block-level content controls.  NOT a boundary: w:lastRenderedPageBreak (IMark),
+   run / hyperlink / w:ins / inline w:sdt / field boundaries. *)
 Theorem C02_docx_separated :
   forall (ws : N -> bool) (cls_of : N -> N) (d : doc),
     ws 9 = true -> ws 10 = true -> ws 32 = true ->
@@ -77,7 +80,7 @@ Print Assumptions C02_docx_only_documented_decoration.
 (* the hypotheses are satisfiable by a rich document (non-vacuity) *)
 Example C02_docx_supported_nonvacuous :
   wf_doc ws0 cls0 rich_doc = true /\ supported_docx rich_doc = true /\
-  List.length (segments rich_doc) = 17%nat /\ excluded rich_doc <> [].
+  List.length (segments rich_doc) = 22%nat /\ excluded rich_doc <> [].
 Proof. exact rich_doc_ok. Qed.
 Print Assumptions C02_docx_supported_nonvacuous.
 
